@@ -132,6 +132,27 @@ Qed.
 (* ---------- start-up ---------- *)
 Definition QB (l : list src) (q : list nat) : Prop := Forall (fun j => j < length l) q.
 
+Lemma remove_first_perm x q : mem_nat x q = true -> Permutation q (x :: remove_first x q).
+Proof.
+  induction q as [|y t IH]; cbn; [discriminate|].
+  destruct (Nat.eqb x y) eqn:E; cbn; intro H.
+  - apply Nat.eqb_eq in E. subst. apply Permutation_refl.
+  - eapply perm_trans; [apply perm_skip; apply IH; exact H|apply perm_swap].
+Qed.
+
+Lemma reorder_perm : forall p q, Permutation (reorder q p) q.
+Proof.
+  induction p as [|x p IH]; intro q; cbn; [apply Permutation_refl|].
+  destruct (mem_nat x q) eqn:E; [|apply IH].
+  eapply perm_trans; [apply perm_skip; apply IH|]. apply Permutation_sym. apply remove_first_perm. exact E.
+Qed.
+
+Lemma reorder_length q p : length (reorder q p) = length q.
+Proof. apply Permutation_length. apply reorder_perm. Qed.
+
+Lemma reorder_QB l q p : QB l q -> QB l (reorder q p).
+Proof. unfold QB. intro H. eapply Permutation_Forall; [apply Permutation_sym; apply reorder_perm|exact H]. Qed.
+
 Lemma get_set_same l i s : i < length l -> get_src (set_src l i s) i = s.
 Proof.
   unfold get_src, set_src. revert i. induction l as [|h t IH]; intros i Hi; [cbn in Hi; lia|].
@@ -230,7 +251,7 @@ Qed.
 
 Lemma step_inv : forall ha g x, AInv g -> AInv (fst (step ha g x)).
 Proof.
-  intros ha g x HI. destruct x as [sc| |y a|i v| | |]; cbn [step].
+  intros ha g x HI. destruct x as [sc| |y a p|i v p| | |]; cbn [step].
   - (* Source *)
     unfold AInv in HI. destruct (ast g) eqn:Ea; try exact (eq_ind _ (fun a => match a with ANew => _ | _ => _ end) HI _ (eq_sym Ea));
     try (cbn [fst]; unfold AInv; rewrite Ea; exact HI).
@@ -252,19 +273,19 @@ Proof.
       destruct HC as (H1 & H2 & H3 & H4 & _). cbn [length] in *.
       assert (Hnp : npend (srcs g) = 0).
       { clear - HF. induction (srcs g) as [|s t IH]; [reflexivity|]. inversion HF; subst. cbn. unfold pendb. rewrite H1. cbn. apply IH. exact H2. }
-      pose proof (apply_outcome_inv (mkAgg l q (count g) (aexp g) (ast g) (aret g) (aexn g) (adone g) (aout g) (aerr g || e)) l q (count g) (aexp g) y) as HA.
-      destruct (apply_outcome _ l (agg_loop l q (count g) (aexp g)) y) as [g1 r]. cbn [fst] in *.
-      apply HA; [lia|exact H4].
+      pose proof (apply_outcome_inv (mkAgg l (reorder q p) (count g) (aexp g) (ast g) (aret g) (aexn g) (adone g) (aout g) (aerr g || e)) l (reorder q p) (count g) (aexp g) y) as HA.
+      destruct (apply_outcome _ l (agg_loop l (reorder q p) (count g) (aexp g)) y) as [g1 r]. cbn [fst] in *.
+      apply HA; [rewrite reorder_length; lia|apply reorder_QB; exact H4].
     + (* AYield *)
       destruct HI as (Hc & Hi & Hq).
       destruct (charge (get_src (srcs g) i) a) as [[[s1 b] e]|] eqn:Ec.
       * pose proof (charge_pend _ _ _ _ _ Ec) as [Hp0 Hp1].
         pose proof (npend_set (srcs g) i s1 Hi) as HN. unfold get_src in Hp0. rewrite Hp0, Hp1 in HN.
-        pose proof (apply_outcome_inv g (set_src (srcs g) i s1) (if b then queue g ++ [i] else queue g) (count g) (aexp g) y) as HA.
+        pose proof (apply_outcome_inv g (set_src (srcs g) i s1) (reorder (if b then queue g ++ [i] else queue g) p) (count g) (aexp g) y) as HA.
         destruct (apply_outcome g _ _ y) as [g1 r]. cbn [fst] in *.
         apply HA.
-        { unfold set_src. destruct b; cbn in HN; rewrite ?app_length; cbn; lia. }
-        { unfold QB, set_src. rewrite set_nth_length. destruct b; [apply Forall_app; split; [exact Hq|constructor; [exact Hi|constructor]]|exact Hq]. }
+        { rewrite reorder_length. unfold set_src. destruct b; cbn in HN; rewrite ?app_length; cbn; lia. }
+        { apply reorder_QB. unfold QB, set_src. rewrite set_nth_length. destruct b; [apply Forall_app; split; [exact Hq|constructor; [exact Hi|constructor]]|exact Hq]. }
       * pose proof (apply_outcome_inv g (srcs g) (queue g) (pred (count g)) (Some (-2)%Z) y) as HA.
         destruct (apply_outcome g (srcs g) _ y) as [g1 r]. cbn [fst] in *.
         assert (HA' : AInv g1) by (apply HA; [lia|exact Hq]).
@@ -289,11 +310,11 @@ Proof.
     + (* AWait *)
       destruct HI as (Hc & Hq & Hpos & Ho).
       destruct (aout g) as [y|] eqn:Eo; [|congruence].
-      pose proof (apply_outcome_inv g (set_src (srcs g) i s1) (if b then queue g ++ [i] else queue g) (count g) (aexp g) y) as HA.
+      pose proof (apply_outcome_inv g (set_src (srcs g) i s1) (reorder (if b then queue g ++ [i] else queue g) p) (count g) (aexp g) y) as HA.
       destruct (apply_outcome g _ _ y) as [g1 r]. cbn [fst] in *.
       apply HA.
-      { rewrite Hq. unfold set_src. destruct b; cbn in HN; cbn; lia. }
-      { unfold QB, set_src. rewrite set_nth_length, Hq. destruct b; cbn; [constructor; [exact Hlt|constructor]|constructor]. }
+      { rewrite reorder_length, Hq. unfold set_src. destruct b; cbn in HN; cbn; lia. }
+      { apply reorder_QB. unfold QB, set_src. rewrite set_nth_length, Hq. destruct b; cbn; [constructor; [exact Hlt|constructor]|constructor]. }
     + (* AFinal: impossible *)
       destruct HI as (_ & _ & Hn). pose proof (npend_zero_nth (srcs g) i Hn) as HB. congruence.
     + (* ADying *)
@@ -719,14 +740,14 @@ Qed.
 
 Definition dstep (x : op) (o : obs) (g1 : agg) : list (nat * Z) :=
   match x with
-  | OAccess _ _ | OComplete _ _ => dres (o_res o) g1
+  | OAccess _ _ _ | OComplete _ _ _ => dres (o_res o) g1
   | _ => []
   end.
 
 (* which sources receive the argument of op x issued in state g *)
 Definition rstep (ha : bool) (g : agg) (x : op) : list (nat * Z) :=
   match x with
-  | OAccess y a =>
+  | OAccess y a _ =>
       if idle g && style_ok ha y then
         match ast g with
         | AInit => all_recv (length (srcs g)) a
@@ -752,6 +773,18 @@ Qed.
 Lemma finish_destroy_tinv scs R D g q c : Pfx (Sof scs R) D (length (srcs g)) -> TInv scs R D (fst (finish_destroy g q c)).
 Proof. intro H. unfold finish_destroy, TInv. cbn. rewrite map_length. exact H. Qed.
 
+Lemma allok_perm S pre D l q q' yi : Permutation q q' -> AllOK S pre D l q yi -> AllOK S pre D l q' yi.
+Proof.
+  intros HP (HS & HN & HQ). split; [|split].
+  - intros j Hj. apply (srcok_transfer S S pre D l l q q' yi yi j (HS j Hj)); try tauto.
+    split; intro H; [eapply Permutation_in; [apply Permutation_sym; exact HP|exact H]|eapply Permutation_in; [exact HP|exact H]].
+  - eapply Permutation_NoDup; [exact HP|exact HN].
+  - unfold QB in *. eapply Permutation_Forall; [exact HP|exact HQ].
+Qed.
+
+Lemma allok_reorder S pre D l q p yi : AllOK S pre D l q yi -> AllOK S pre D l (reorder q p) yi.
+Proof. apply allok_perm. apply Permutation_sym. apply reorder_perm. Qed.
+
 Lemma Sof_other scs R i a j fut : j <> i -> Sof scs (R ++ [(i, a)]) j fut = Sof scs R j fut.
 Proof. intro H. rewrite Sof_app, rj_single. assert (Nat.eqb i j = false) by (apply Nat.eqb_neq; congruence). rewrite H0. reflexivity. Qed.
 
@@ -764,7 +797,7 @@ Proof.
   intros ha scs R D g x HT.
   assert (SAME : TInv scs (R ++ []) (D ++ []) g) by (rewrite !app_nil_r; exact HT).
   pose proof (tinv_pfx scs R D g HT) as HP.
-  destruct x as [sc| |y a|i v| | |]; cbn [step dstep rstep].
+  destruct x as [sc| |y a p|i v p| | |]; cbn [step dstep rstep].
   - unfold TInv in HT. destruct (ast g) eqn:Ea; try contradiction; exact SAME.
   - unfold TInv in HT. destruct (ast g) eqn:Ea; try contradiction; exact SAME.
   - (* Access *)
@@ -783,8 +816,8 @@ Proof.
                     (fun j _ _ => forall_init_get (srcs g) j HF) ltac:(intros; lia)) as HC.
       unfold charge_all. destruct (charge_from (length (srcs g)) 0 a (srcs g) [] [] false) as [[[l q] ev] e].
       destruct HC as [HA' HNI].
-      pose proof (apply_outcome_tinv scs R' [] (mkAgg l q (count g) (aexp g) (ast g) (aret g) (aexn g) (adone g) (aout g) (aerr g || e)) l q (count g) (aexp g) y
-                    (allok_pre _ _ None _ _ _ _ HNI HA') HNI) as HO.
+      pose proof (apply_outcome_tinv scs R' [] (mkAgg l (reorder q p) (count g) (aexp g) (ast g) (aret g) (aexn g) (adone g) (aout g) (aerr g || e)) l (reorder q p) (count g) (aexp g) y
+                    (allok_reorder _ _ _ _ _ p _ (allok_pre _ _ None _ _ _ _ HNI HA')) HNI) as HO.
       destruct (apply_outcome _ l _ y) as [g1 r]. cbn [o_res]. exact HO.
     + (* AYield *)
       destruct HT as ((HS & HN & HQ) & HNI & Hi).
@@ -809,8 +842,8 @@ Proof.
                    (mkSrc (s_pc (get_src (srcs g) i)) (s_gds (get_src (srcs g) i)) a a BYield (s_ret (get_src (srcs g) i)) (s_exn (get_src (srcs g) i)) (s_done (get_src (srcs g) i)))
                    (exec (s_pc (get_src (srcs g) i)) (s_gds (get_src (srcs g) i)) a a)) as HNI1.
       destruct (src_after _ _) as [[s2 b] ev0].
-      pose proof (apply_outcome_tinv scs (R ++ [(i, a)]) D g (set_src (srcs g) i s2) (if b then queue g ++ [i] else queue g) (count g) (aexp g) y HF
-                    (noinit_set _ _ _ HNI HNI1)) as HO.
+      pose proof (apply_outcome_tinv scs (R ++ [(i, a)]) D g (set_src (srcs g) i s2) (reorder (if b then queue g ++ [i] else queue g) p) (count g) (aexp g) y
+                    (allok_reorder _ _ _ _ _ p _ HF) (noinit_set _ _ _ HNI HNI1)) as HO.
       destruct (apply_outcome g _ _ y) as [g1 r]. cbn [o_res]. exact HO.
     + (* AFinal *)
       cbn [o_res]. unfold dres. destruct (adone g); [destruct (fut_style y)|]; cbn; exact SAME.
@@ -845,8 +878,8 @@ Proof.
                    (exec (s_pc (get_src (srcs g) i)) (s_gds (get_src (srcs g) i)) (s_cur (get_src (srcs g) i)) (s_arg (get_src (srcs g) i)))) as HNI1.
       destruct (src_after _ _) as [[s2 b] ev0].
       destruct (aout g) as [y|]; [|exact SAME'].
-      pose proof (apply_outcome_tinv scs R D g (set_src (srcs g) i s2) (if b then queue g ++ [i] else queue g) (count g) (aexp g) y HF
-                    (noinit_set _ _ _ HNI HNI1)) as HO.
+      pose proof (apply_outcome_tinv scs R D g (set_src (srcs g) i s2) (reorder (if b then queue g ++ [i] else queue g) p) (count g) (aexp g) y
+                    (allok_reorder _ _ _ _ _ p _ HF) (noinit_set _ _ _ HNI HNI1)) as HO.
       destruct (apply_outcome g _ _ y) as [g1 r]. cbn [o_res]. exact HO.
     + (* AFinal *)
       destruct HT as ((HS & HN & HQ) & HNI).
@@ -943,18 +976,18 @@ Proof. destruct r as [[[o q] c] x]. destruct o; reflexivity. Qed.
 
 Lemma step_length ha g x : ast g <> ANew -> length (srcs (fst (step ha g x))) = length (srcs g) /\ ast (fst (step ha g x)) <> ANew.
 Proof.
-  intro Hn. destruct x as [sc| |y a|i v| | |]; cbn [step].
+  intro Hn. destruct x as [sc| |y a p|i v p| | |]; cbn [step].
   - destruct (ast g) eqn:Ea; [exfalso; apply Hn; reflexivity|..]; (split; [reflexivity|cbn; rewrite Ea; discriminate]).
   - destruct (ast g) eqn:Ea; [exfalso; apply Hn; reflexivity|..]; (split; [reflexivity|cbn; rewrite Ea; discriminate]).
   - destruct (idle g && style_ok ha y); [|split; [reflexivity|assumption]].
     destruct (ast g) eqn:Ea; try (cbn [fst]; split; [reflexivity|congruence]).
     + unfold charge_all. pose proof (charge_from_length (length (srcs g)) 0 a (srcs g) [] [] false) as HL.
       destruct (charge_from (length (srcs g)) 0 a (srcs g) [] [] false) as [[[l q] ev] e]. cbn [fst] in HL.
-      pose proof (apply_outcome_srcs (mkAgg l q (count g) (aexp g) (ast g) (aret g) (aexn g) (adone g) (aout g) (aerr g || e)) l (agg_loop l q (count g) (aexp g)) y) as HS.
+      pose proof (apply_outcome_srcs (mkAgg l (reorder q p) (count g) (aexp g) (ast g) (aret g) (aexn g) (adone g) (aout g) (aerr g || e)) l (agg_loop l (reorder q p) (count g) (aexp g)) y) as HS.
       destruct (apply_outcome _ l _ y) as [g1 r] eqn:E. cbn [fst] in *. rewrite HS. split; [exact HL|].
-      unfold apply_outcome in E. destruct (agg_loop l q (count g) (aexp g)) as [[[o q'] c'] x']. destruct o; injection E as <- _; discriminate.
+      unfold apply_outcome in E. destruct (agg_loop l _ (count g) (aexp g)) as [[[o q'] c'] x']. destruct o; injection E as <- _; discriminate.
     + destruct (charge (get_src (srcs g) i) a) as [[[s1 b] e]|].
-      * pose proof (apply_outcome_srcs g (set_src (srcs g) i s1) (agg_loop (set_src (srcs g) i s1) (if b then queue g ++ [i] else queue g) (count g) (aexp g)) y) as HS.
+      * pose proof (apply_outcome_srcs g (set_src (srcs g) i s1) (agg_loop (set_src (srcs g) i s1) (reorder (if b then queue g ++ [i] else queue g) p) (count g) (aexp g)) y) as HS.
         destruct (apply_outcome g _ _ y) as [g1 r] eqn:E. cbn [fst] in *. rewrite HS. split; [unfold set_src; apply set_nth_length|].
         unfold apply_outcome in E. destruct (agg_loop _ _ _ _) as [[[o q'] c'] x']. destruct o; injection E as <- _; discriminate.
       * pose proof (apply_outcome_srcs g (srcs g) (agg_loop (srcs g) (queue g) (pred (count g)) (Some (-2)%Z)) y) as HS.
@@ -966,7 +999,7 @@ Proof.
     (destruct (complete_src (get_src (srcs g) i) v) as [[[s1 b] e]|]; [|exact R]);
     try (cbn [fst srcs ast]; split; [unfold set_src; apply set_nth_length|rewrite ?Ea; discriminate]).
     + destruct (aout g) as [y|]; [|exact R].
-      pose proof (apply_outcome_srcs g (set_src (srcs g) i s1) (agg_loop (set_src (srcs g) i s1) (if b then queue g ++ [i] else queue g) (count g) (aexp g)) y) as HS.
+      pose proof (apply_outcome_srcs g (set_src (srcs g) i s1) (agg_loop (set_src (srcs g) i s1) (reorder (if b then queue g ++ [i] else queue g) p) (count g) (aexp g)) y) as HS.
       destruct (apply_outcome g _ _ y) as [g1 r] eqn:E. cbn [fst] in *. rewrite HS. split; [unfold set_src; apply set_nth_length|].
       unfold apply_outcome in E. destruct (agg_loop _ _ _ _) as [[[o q'] c'] x']. destruct o; injection E as <- _; discriminate.
     + destruct (drain (if b then queue g ++ [i] else queue g) (count g)) as [[q1 c1] bl]. destruct bl; cbn [fst finish_destroy srcs ast].
@@ -1042,17 +1075,17 @@ Qed.
 
 Definition terminal_res (r : res) : Prop := match r with RExc _ | REndF | REndT => True | _ => False end.
 
-Theorem aggr_end_if_all_ended : forall ha scs ops y a,
+Theorem aggr_end_if_all_ended : forall ha scs ops y a p,
   let g := snd (run_from ha (build_state scs) ops) in
-  let '(g1, o) := step ha g (OAccess y a) in
+  let '(g1, o) := step ha g (OAccess y a p) in
   o_st o = 0%Z -> all_final (srcs g1) -> ast g1 = AFinal /\ terminal_res (o_res o).
 Proof.
-  intros ha scs ops y a g.
+  intros ha scs ops y a p g.
   pose proof (run_tinv ha scs ops (build_state scs) [] [] (build_tinv scs)) as HT. cbn [app] in HT. fold g in HT.
   pose proof (run_inv ha ops (build_state scs) (build_ainv scs)) as HI. fold g in HI.
-  pose proof (step_tinv ha scs _ _ g (OAccess y a) HT) as HT1.
-  pose proof (step_inv ha g (OAccess y a) HI) as HI1.
-  assert (HR : let '(g1, o) := step ha g (OAccess y a) in o_st o = 0%Z ->
+  pose proof (step_tinv ha scs _ _ g (OAccess y a p) HT) as HT1.
+  pose proof (step_inv ha g (OAccess y a p) HI) as HI1.
+  assert (HR : let '(g1, o) := step ha g (OAccess y a p) in o_st o = 0%Z ->
                ((exists i, ast g1 = AYield i) \/ ast g1 = AWait \/ (ast g1 = AFinal /\ terminal_res (o_res o)))).
   { assert (AO : forall g0 l r, let '(g1, res) := apply_outcome g0 l r y in
                  (exists i, ast g1 = AYield i) \/ ast g1 = AWait \/ (ast g1 = AFinal /\ terminal_res res)).
@@ -1060,15 +1093,15 @@ Proof.
     cbn [step]. destruct (idle g && style_ok ha y); [|cbn; discriminate].
     destruct (ast g) eqn:Ea; try (cbn; discriminate).
     - unfold charge_all. destruct (charge_from _ _ _ _ _ _ _) as [[[l q] ev] e].
-      pose proof (AO (mkAgg l q (count g) (aexp g) (ast g) (aret g) (aexn g) (adone g) (aout g) (aerr g || e)) l (agg_loop l q (count g) (aexp g))) as HF.
+      pose proof (AO (mkAgg l (reorder q p) (count g) (aexp g) (ast g) (aret g) (aexn g) (adone g) (aout g) (aerr g || e)) l (agg_loop l (reorder q p) (count g) (aexp g))) as HF.
       destruct (apply_outcome _ l _ y) as [g1 r]. cbn [o_res]. intros _. exact HF.
     - destruct (charge _ _) as [[[s1 b] e]|].
-      + pose proof (AO g (set_src (srcs g) i s1) (agg_loop (set_src (srcs g) i s1) (if b then queue g ++ [i] else queue g) (count g) (aexp g))) as HF.
+      + pose proof (AO g (set_src (srcs g) i s1) (agg_loop (set_src (srcs g) i s1) (reorder (if b then queue g ++ [i] else queue g) p) (count g) (aexp g))) as HF.
         destruct (apply_outcome g _ _ y) as [g1 r]. cbn [o_res]. intros _. exact HF.
       + pose proof (AO g (srcs g) (agg_loop (srcs g) (queue g) (pred (count g)) (Some (-2)%Z))) as HF.
         destruct (apply_outcome g _ _ y) as [g1 r]. cbn [o_res ast]. intros _. exact HF.
     - cbn [o_res]. intros _. right. right. split; [exact Ea|]. destruct (adone g); [destruct (fut_style y)|]; exact I. }
-  destruct (step ha g (OAccess y a)) as [g1 o]. cbn [fst] in *.
+  destruct (step ha g (OAccess y a p)) as [g1 o]. cbn [fst] in *.
   intros Hst Hfin. destruct (HR Hst) as [[i Hy]|[Hw|Hf]].
   - exfalso. unfold TInv in HT1. rewrite Hy in HT1. destruct HT1 as ((HS & _) & _ & Hi).
     specialize (HS i Hi). unfold SrcOK in HS. rewrite (Hfin i Hi) in HS. destruct HS as (_ & Hyi & _). apply Hyi. reflexivity.
@@ -1080,7 +1113,7 @@ Qed.
    of the source it came from *)
 Definition vals_of (ops : list op) (os : list obs) : list Z :=
   flat_map (fun p => match fst p with
-                     | OAccess _ _ | OComplete _ _ => match o_res (snd p) with RVal v => [v] | _ => [] end
+                     | OAccess _ _ _ | OComplete _ _ _ => match o_res (snd p) with RVal v => [v] | _ => [] end
                      | _ => []
                      end) (combine ops os).
 
@@ -1089,18 +1122,18 @@ Lemma apply_outcome_val g l r y : let '(g1, res) := apply_outcome g l r y in
 Proof. destruct r as [[[o q] c] x]. destruct o; cbn; intros v0 H; try discriminate. eauto. Qed.
 
 Lemma step_val ha g x : let '(g1, o) := step ha g x in
-  forall v, o_res o = RVal v -> (match x with OAccess _ _ | OComplete _ _ => True | _ => False end) -> exists i, ast g1 = AYield i.
+  forall v, o_res o = RVal v -> (match x with OAccess _ _ _ | OComplete _ _ _ => True | _ => False end) -> exists i, ast g1 = AYield i.
 Proof.
-  destruct x as [sc| |y a|i v| | |]; cbn [step]; try (destruct (step ha g _); intros; contradiction).
+  destruct x as [sc| |y a p|i v p| | |]; cbn [step]; try (destruct (step ha g _); intros; contradiction).
   - destruct (ast g); try destruct (Nat.ltb _ _); cbn; intros; contradiction.
   - destruct (ast g); cbn; intros; contradiction.
   - destruct (idle g && style_ok ha y); [|cbn; intros; discriminate].
     destruct (ast g); try (cbn; intros; discriminate).
     + unfold charge_all. destruct (charge_from _ _ _ _ _ _ _) as [[[l q] ev] e].
-      pose proof (apply_outcome_val (mkAgg l q (count g) (aexp g) (ast g) (aret g) (aexn g) (adone g) (aout g) (aerr g || e)) l (agg_loop l q (count g) (aexp g)) y) as H.
+      pose proof (apply_outcome_val (mkAgg l (reorder q p) (count g) (aexp g) (ast g) (aret g) (aexn g) (adone g) (aout g) (aerr g || e)) l (agg_loop l (reorder q p) (count g) (aexp g)) y) as H.
       destruct (apply_outcome _ l _ y) as [g1 r]. cbn [o_res]. intros v Hv _. eapply H. exact Hv.
     + destruct (charge _ _) as [[[s1 b] e]|].
-      * pose proof (apply_outcome_val g (set_src (srcs g) i s1) (agg_loop (set_src (srcs g) i s1) (if b then queue g ++ [i] else queue g) (count g) (aexp g)) y) as H.
+      * pose proof (apply_outcome_val g (set_src (srcs g) i s1) (agg_loop (set_src (srcs g) i s1) (reorder (if b then queue g ++ [i] else queue g) p) (count g) (aexp g)) y) as H.
         destruct (apply_outcome g _ _ y) as [g1 r]. cbn [o_res]. intros v Hv _. eapply H. exact Hv.
       * pose proof (apply_outcome_val g (srcs g) (agg_loop (srcs g) (queue g) (pred (count g)) (Some (-2)%Z)) y) as H.
         destruct (apply_outcome g _ _ y) as [g1 r]. cbn [o_res ast]. intros v Hv _. eapply H. exact Hv.
@@ -1110,7 +1143,7 @@ Proof.
     (destruct (complete_src _ _) as [[[s1 b] e]|]; [|cbn; intros; discriminate]);
     try (cbn; intros; discriminate).
     + destruct (aout g) as [y|]; [|cbn; intros; discriminate].
-      pose proof (apply_outcome_val g (set_src (srcs g) i s1) (agg_loop (set_src (srcs g) i s1) (if b then queue g ++ [i] else queue g) (count g) (aexp g)) y) as H.
+      pose proof (apply_outcome_val g (set_src (srcs g) i s1) (agg_loop (set_src (srcs g) i s1) (reorder (if b then queue g ++ [i] else queue g) p) (count g) (aexp g)) y) as H.
       destruct (apply_outcome g _ _ y) as [g1 r]. cbn [o_res]. intros v0 Hv _. eapply H. exact Hv.
     + destruct (drain _ _) as [[q1 c1] bl]. destruct bl; cbn; intros; discriminate.
   - destruct (idle g); [|cbn; intros; contradiction]. destruct (ast g); try destruct (drain _ _) as [[? ?] []]; cbn; intros; contradiction.
@@ -1150,13 +1183,13 @@ Qed.
 
 (* C14 argument_routing: an access of an aggregate parked at the yield of source i resumes source i and no other
    source, and every argument that source receives during that access is the access's argument *)
-Theorem aggr_argument_routing : forall ha g y a i s1 b e,
+Theorem aggr_argument_routing : forall ha g y a pf i s1 b e,
   ast g = AYield i -> idle g = true -> style_ok ha y = true ->
   charge (get_src (srcs g) i) a = Some (s1, b, e) ->
-  o_ev (snd (step ha g (OAccess y a))) = tag_ev i e /\ Forall (arg_is a) e /\
+  o_ev (snd (step ha g (OAccess y a pf))) = tag_ev i e /\ Forall (arg_is a) e /\
   s_arg s1 = a.
 Proof.
-  intros ha g y a i s1 b e Ha Hi Hs Hc. cbn [step]. rewrite Hi, Hs, Ha. cbn [andb]. rewrite Hc.
+  intros ha g y a pf i s1 b e Ha Hi Hs Hc. cbn [step]. rewrite Hi, Hs, Ha. cbn [andb]. rewrite Hc.
   destruct (apply_outcome g _ _ y) as [g1 r]. cbn [snd o_ev]. split; [reflexivity|].
   unfold charge in Hc. destruct (s_bst (get_src (srcs g) i)); try discriminate.
   - pose proof (exec_arg_events (s_pc (get_src (srcs g) i)) (s_gds (get_src (srcs g) i)) (s_cur (get_src (srcs g) i)) a) as HE.
@@ -1290,7 +1323,7 @@ Lemma step_bal ha g x0 x j : AInv g ->
 Proof.
   intro HI.
   assert (R : ccount (is_ctor x) j (o_ev rejected) + gcount x (srcs g) j = ccount (is_dtor x) j (o_ev rejected) + gcount x (srcs g) j) by reflexivity.
-  destruct x0 as [sc| |y a|i v| | |]; cbn [step].
+  destruct x0 as [sc| |y a p|i v p| | |]; cbn [step].
   - destruct (ast g); try exact R. destruct (Nat.ltb (length (srcs g)) 12); [|exact R].
     cbn [o_ev srcs]. rewrite gcount_app_src0. reflexivity.
   - destruct (ast g); first [exact R | reflexivity].
@@ -1298,12 +1331,12 @@ Proof.
     unfold AInv in HI. destruct (ast g) eqn:Ea; try exact R.
     + unfold charge_all. pose proof (charge_from_bal x (length (srcs g)) 0 a (srcs g) [] [] false j eq_refl) as HC.
       destruct (charge_from _ _ _ _ _ _ _) as [[[l q] ev] e].
-      pose proof (apply_outcome_srcs (mkAgg l q (count g) (aexp g) (ast g) (aret g) (aexn g) (adone g) (aout g) (aerr g || e)) l (agg_loop l q (count g) (aexp g)) y) as HS.
+      pose proof (apply_outcome_srcs (mkAgg l (reorder q p) (count g) (aexp g) (ast g) (aret g) (aexn g) (adone g) (aout g) (aerr g || e)) l (agg_loop l (reorder q p) (count g) (aexp g)) y) as HS.
       destruct (apply_outcome _ l _ y) as [g1 r]. cbn [fst o_ev] in *. rewrite HS. cbn in HC. lia.
     + destruct HI as (_ & Hi & _).
       destruct (charge (get_src (srcs g) i) a) as [[[s1 b] e]|] eqn:Ec.
       * pose proof (fire_bal x (srcs g) i s1 e j Hi (charge_bal x _ _ _ _ _ Ec)) as HF.
-        pose proof (apply_outcome_srcs g (set_src (srcs g) i s1) (agg_loop (set_src (srcs g) i s1) (if b then queue g ++ [i] else queue g) (count g) (aexp g)) y) as HS.
+        pose proof (apply_outcome_srcs g (set_src (srcs g) i s1) (agg_loop (set_src (srcs g) i s1) (reorder (if b then queue g ++ [i] else queue g) p) (count g) (aexp g)) y) as HS.
         destruct (apply_outcome g _ _ y) as [g1 r]. cbn [fst o_ev] in *. rewrite HS. exact HF.
       * pose proof (apply_outcome_srcs g (srcs g) (agg_loop (srcs g) (queue g) (pred (count g)) (Some (-2)%Z)) y) as HS.
         destruct (apply_outcome g _ _ y) as [g1 r]. cbn [fst o_ev srcs] in *. rewrite HS. reflexivity.
@@ -1313,7 +1346,7 @@ Proof.
     pose proof (fire_bal x (srcs g) i s1 e j Hlt (complete_bal x _ _ _ _ _ Ec)) as HF;
     try (cbn [o_ev srcs]; exact HF).
     + destruct (aout g) as [y|]; [|exact R].
-      pose proof (apply_outcome_srcs g (set_src (srcs g) i s1) (agg_loop (set_src (srcs g) i s1) (if b then queue g ++ [i] else queue g) (count g) (aexp g)) y) as HS.
+      pose proof (apply_outcome_srcs g (set_src (srcs g) i s1) (agg_loop (set_src (srcs g) i s1) (reorder (if b then queue g ++ [i] else queue g) p) (count g) (aexp g)) y) as HS.
       destruct (apply_outcome g _ _ y) as [g1 r]. cbn [fst o_ev] in *. rewrite HS. exact HF.
     + destruct (drain _ _) as [[q1 c1] bl]. destruct bl; [cbn [o_ev srcs]; exact HF|].
       pose proof (finish_destroy_bal x j (mkAgg (set_src (srcs g) i s1) q1 c1 (aexp g) ADying (aret g) (aexn g) (adone g) (aout g) (aerr g)) q1 c1) as HD.
@@ -1350,7 +1383,7 @@ Lemma dead_gcount ha x j : forall ops g, AInv g -> (ast g = ADead -> gcount x (s
 Proof.
   induction ops as [|x0 ops IH]; intros g HI HD; [exact HD|].
   rewrite run_cons. cbn [snd]. apply IH; [apply step_inv; exact HI|].
-  clear IH. destruct x0 as [sc| |y a|i v| | |]; cbn [step].
+  clear IH. destruct x0 as [sc| |y a p|i v p| | |]; cbn [step].
   - destruct (ast g) eqn:Ea; try (cbn [fst]; rewrite Ea; exact HD). destruct (Nat.ltb _ _); cbn; [discriminate|rewrite Ea; discriminate].
   - destruct (ast g) eqn:Ea; try (cbn [fst]; rewrite Ea; exact HD). cbn. discriminate.
   - destruct (idle g && style_ok ha y); [|exact HD].
